@@ -384,3 +384,114 @@ LAWS = [
         {"quick": 1500, "thorough": 30000}, "conic.intersect(conic): <= 4 points on both conics, all exactly known common points present (incl. repeated roots)", shard=200,
         mandatory=("fourfold", "fourfold_exact", "tangent_secant", "circles", "degenerate-receiver")),
 ]
+
+
+# ------------------------------------------------------------------------------------------- the first calls of a process
+def first_calls_drive(tier, seed, n_examples):
+    """Short programs of three conic queries are run as the very first library calls of a new interpreter
+    (python -m vp.fresh_seq): a pair of lines given as an integer-typed, float, complex or from_lines matrix, asked for its
+    components or cut with a line. Every answer is checked against the exact pair / the exact common points, so that whatever
+    the first call leaves behind in the process (caches, work arrays fixed to its dtype or shape) cannot change later answers."""
+    import base64
+    import json as _json
+    import os as _os
+    import pickle
+    import random as _random  # derives the deterministic list of programs from the seed
+    import subprocess
+    import sys as _sys
+    from collections import Counter
+
+    from ..runner import HarnessError, case_hash
+
+    rnd = _random.Random(seed)
+    res = {"evaluations": 0, "skipped": 0, "nt": set(), "nt_extra": 0, "labels": Counter(), "samples": [], "fails": [], "extra": {"fresh_processes": 0}}
+    here = _os.path.dirname(_os.path.dirname(_os.path.dirname(_os.path.abspath(__file__))))
+    hows = ["int-matrix", "float-matrix", "from_lines", "complex-matrix"]
+
+    def vec():
+        while True:
+            v = [rnd.randint(-4, 4) for _ in range(3)]
+            if any(v):
+                return v
+
+    for i in range(max(1, n_examples)):
+        prog = []
+        for j in range(3):
+            g, h = vec(), vec()
+            while np.linalg.matrix_rank(np.array([g, h])) < 2:
+                h = vec()
+            ln = vec()
+            while np.linalg.matrix_rank(np.array([g, ln])) < 2 or np.linalg.matrix_rank(np.array([h, ln])) < 2:
+                ln = vec()
+            how = hows[(i + j * (1 + i // 4)) % 4] if j else hows[i % 4]
+            prog.append({"g": g, "h": h, "how": how, "query": "components" if (i + j) % 3 else "intersect", "line": ln})
+        env = dict(_os.environ, PYTHONHASHSEED="0", OMP_NUM_THREADS="1", OPENBLAS_NUM_THREADS="1", MKL_NUM_THREADS="1", PYTHONDONTWRITEBYTECODE="1")
+        pr = subprocess.run([_sys.executable, "-m", "vp.fresh_seq", _json.dumps(prog)], cwd=here, env=env, capture_output=True, text=True, timeout=300)
+        line = next((ln_ for ln_ in pr.stdout.splitlines() if ln_.startswith("RESULT:")), None)
+        if line is None:
+            raise HarnessError(f"fresh interpreter gave no result: {pr.stderr[-300:]}")
+        answers = pickle.loads(base64.b64decode(line[len("RESULT:"):]))
+        res["extra"]["fresh_processes"] += 1
+        case = {"program": prog}
+        res["evaluations"] += 1
+        res["labels"]["first:" + prog[0]["how"]] += 1
+        if prog[0]["how"] != prog[1]["how"]:
+            res["nt"].add(case_hash(case))
+        if len(res["samples"]) < 3:
+            res["samples"].append(case)
+        for j, (stp, ans) in enumerate(zip(prog, answers)):
+            site = f"fresh-process:step{j}:{stp['how']}:{stp['query']}:after:{prog[0]['how']}"
+            if ans[0] != "ok":
+                res["fails"].append((Fail("EXC:" + ans[1].split(":")[0], site, "").sig("first_calls_of_a_process"), case, ans[1]))
+                break
+            g, h, ln = (np.array(stp[k], float) for k in ("g", "h", "line"))
+            want = [g, h] if stp["query"] == "components" else [np.cross(g, ln), np.cross(h, ln)]
+            got = [np.asarray(a) for a in ans[1]]
+            if len(got) == 1 and C.peq_all(want[0], want[1]):
+                got = got * 2
+            if not (len(got) == 2 and C.multiset_peq(got, want, 1e-6)):
+                res["fails"].append((Fail("MISMATCH", site, "").sig("first_calls_of_a_process"), case, str(([a.tolist() for a in got], [w.tolist() for w in want]))[:300]))
+                break
+    res["labels"] = dict(res["labels"])
+    return res
+
+
+def replay_first_calls(case):
+    import json as _json
+
+    r = first_calls_drive("quick", 1, 0) if False else None
+    # re-run exactly this program
+    import base64
+    import os as _os
+    import pickle
+    import subprocess
+    import sys as _sys
+
+    here = _os.path.dirname(_os.path.dirname(_os.path.dirname(_os.path.abspath(__file__))))
+    prog = case["program"]
+    pr = subprocess.run([_sys.executable, "-m", "vp.fresh_seq", _json.dumps(prog)], cwd=here, env=dict(_os.environ, PYTHONHASHSEED="0"), capture_output=True, text=True, timeout=300)
+    line = next((x for x in pr.stdout.splitlines() if x.startswith("RESULT:")), None)
+    answers = pickle.loads(base64.b64decode(line[len("RESULT:"):]))
+    fails = []
+    for j, (stp, ans) in enumerate(zip(prog, answers)):
+        site = f"fresh-process:step{j}:{stp['how']}:{stp['query']}:after:{prog[0]['how']}"
+        if ans[0] != "ok":
+            fails.append(Fail("EXC:" + ans[1].split(":")[0], site, ans[1]))
+            break
+        g, h, ln = (np.array(stp[k], float) for k in ("g", "h", "line"))
+        want = [g, h] if stp["query"] == "components" else [np.cross(g, ln), np.cross(h, ln)]
+        got = [np.asarray(a) for a in ans[1]]
+        if len(got) == 1 and C.peq_all(want[0], want[1]):
+            got = got * 2
+        if not (len(got) == 2 and C.multiset_peq(got, want, 1e-6)):
+            fails.append(Fail("MISMATCH", site, str(([a.tolist() for a in got], [w.tolist() for w in want]))[:300]))
+            break
+    return fails
+
+
+LAWS.append(
+    Law("first_calls_of_a_process", None, None, drive=first_calls_drive, budget={"quick": 64, "thorough": 640}, shard=8,
+        rule="programs of three conic queries (integer / float / complex / from_lines matrices; components, intersect) as the first calls of a new interpreter: every answer equals the exact pair / common points",
+        mandatory=("first:int-matrix", "first:float-matrix"))
+)
+REPLAY = dict(globals().get("REPLAY", {}), first_calls_of_a_process=replay_first_calls)
